@@ -155,3 +155,16 @@ def exc_name(e):
 
 def short_tb():
     return traceback.format_exc(limit=6)[-1500:]
+
+
+def raise_site(e):
+    """Innermost library frame an exception passed through: 'core:Class.method' (mechanism key material)."""
+    tb = e.__traceback__
+    site = None
+    lib = os.path.join(REPO, "construct") + os.sep
+    while tb is not None:
+        co = tb.tb_frame.f_code
+        if co.co_filename.startswith(lib):
+            site = os.path.basename(co.co_filename)[:-3] + ":" + co.co_qualname
+        tb = tb.tb_next
+    return site or "outside-library"
